@@ -93,6 +93,14 @@ class _FieldOfDressed:
                 # the reference now denotes another object (or none): the
                 # dressed object kept for the previous referent is stale
                 container.__dict__.pop("_dressed_" + self.name, None)
+            elif hasattr(container, "_dressed_" + self.name):
+                # the nested object was rewritten in place, possibly with
+                # another internal layout (an xobject of the same size is
+                # byte-copied): the struct view held by its dressed counterpart
+                # caches the old field offsets
+                getattr(container, "_dressed_" + self.name)._reinit_from_xobject(
+                    _xobject=getattr(container._xobject, self.name)
+                )
 
 
 class JEncoder(json.JSONEncoder):
